@@ -188,6 +188,16 @@ def run_map_case(case):
             elif f == "contains":
                 if (k in m) is not (k in model) or ("x" in m) is not False:
                     res.fail("C16:refine:map.contains", where)
+                # keys of another type are absent keys, as for a dict
+                for foreign in ("x", None, (1, 2), 1.5):
+                    if m.get(foreign, "dflt") != "dflt" or m.pop(foreign, "dflt") != "dflt":
+                        res.fail("C16:refine:map.foreign-key-found", "%s: %r" % (where, foreign))
+                    got, exc = _call(lambda: m[foreign])
+                    if not isinstance(exc, KeyError):
+                        res.fail("C16:refine:map.foreign-key-no-KeyError", "%s: %r -> %r %r" % (where, foreign, got, exc))
+                    got, exc = _call(lambda: m.__delitem__(foreign))
+                    if not isinstance(exc, KeyError):
+                        res.fail("C16:refine:map.foreign-key-del-no-KeyError", "%s: %r -> %r" % (where, foreign, exc))
             elif f == "views":
                 vals = list(m.values())
                 want = [exprs[model[kk]] for kk in sorted(model)]
